@@ -239,6 +239,24 @@ func vrtExternal(fn *ssa.Function, name string) externalFn {
 		}
 	case "vrtUnfreeze":
 		return func(fr *frame, args []value) value { unfreezeAll(); return nil }
+	case "vrtCrash":
+		return func(fr *frame, args []value) value { panic(crashPanic{}) }
+	case "vrtCatchCrash":
+		// vrtCatchCrash(f) runs f and reports whether it died in vrtCrash()
+		return func(fr *frame, args []value) (res value) {
+			res = false
+			defer func() {
+				if r := recover(); r != nil {
+					if _, ok := r.(crashPanic); ok {
+						res = true
+						return
+					}
+					panic(r)
+				}
+			}()
+			call(fr.i, fr, token.NoPos, args[0], nil)
+			return
+		}
 	case "vrtParam":
 		// vrtParam(name, default) int: per-tier harness parameter from the directive
 		return func(fr *frame, args []value) value {
